@@ -370,4 +370,106 @@ example : sasl2Authenticate { creds := { password := .nonEmpty, htToken := some 
 example : sasl2Authenticate { creds := { password := .nonEmpty, htToken := some (0, .nob) } } false ["SCRAM-SHA-256", "PLAIN"]
     (some ["HT-SHA-256-NONE", "HT-SHA3-512-NONE"]) = .sent "SCRAM-SHA-256" false := by decide
 
+/-! ## client level: `handleStreamFeatures` never falls back when SASL negotiation finds nothing -/
+
+/-- **Mismatch instead of anything else (SASL).** SASL enabled by the user, the server offers a non-empty `<mechanisms/>` and
+SASL 2 is not negotiated: if nothing is permitted the client's step is exactly the mismatch report (and it disconnects) —
+never XEP-0078 authentication, a bind request or a session, whatever else the features advertise. -/
+theorem client_mismatch_when_nothing_permitted (c : ClientCfg) (f : Features)
+    (hs : c.useSasl = true) (hoff : f.mechanisms ≠ []) (hno2 : f.sasl2 = none ∨ c.useSasl2 = false)
+    (hnone : permitted c.cfg f.mechanisms = []) :
+    clientChoice c f = .sasl (.mismatch (disabledOffered c.cfg f.mechanisms)) ∧ (clientChoice c f).disconnects = true := by
+  have hch : choose c.cfg f.mechanisms = none := (choose_none_iff _ _).mpr hnone
+  have hne : f.mechanisms.isEmpty = false := by
+    cases hm : f.mechanisms with
+    | nil => exact absurd hm hoff
+    | cons _ _ => rfl
+  have key : clientChoice c f = .sasl (.mismatch (disabledOffered c.cfg f.mechanisms)) := by
+    unfold clientChoice
+    rcases hno2 with h2 | h2
+    · rw [h2]; simp [hne, hs, authenticate, hch]
+    · rw [h2]; cases f.sasl2 <;> simp [hne, hs, authenticate, hch]
+  exact ⟨key, by rw [key]; rfl⟩
+
+example : clientChoice {} { mechanisms := ["GSSAPI", "EXTERNAL", "SCRAM-SHA-1-PLUS"], legacyAuth := true, bind := true }
+    = .sasl (.mismatch []) := by decide
+example : clientChoice {} { mechanisms := ["PLAIN"], legacyAuth := true } = .sasl (.mismatch ["PLAIN"]) := by decide
+
+/-- **Mismatch instead of anything else (SASL 2).** SASL 2 offered and enabled: if nothing is permitted among its mechanisms
+(plus the `<fast/>` ones when FAST is on) the step is the mismatch report — there is no fall-back to SASL, XEP-0078 or bind. -/
+theorem client_sasl2_mismatch_when_nothing_permitted (c : ClientCfg) (f : Features) (m2 : List String)
+    (h2 : f.sasl2 = some m2) (hu : c.useSasl2 = true)
+    (hnone : permitted c.cfg (sasl2Offer c.fastOn m2 f.fast) = []) :
+    clientChoice c f = .sasl2 (.mismatch (disabledOffered c.cfg (sasl2Offer c.fastOn m2 f.fast))) ∧
+      (clientChoice c f).disconnects = true := by
+  have hch : choose c.cfg (sasl2Offer c.fastOn m2 f.fast) = none := (choose_none_iff _ _).mpr hnone
+  have key : clientChoice c f = .sasl2 (.mismatch (disabledOffered c.cfg (sasl2Offer c.fastOn m2 f.fast))) := by
+    unfold clientChoice
+    rw [h2, hu]
+    simp [sasl2Authenticate, hch]
+  exact ⟨key, by rw [key]; rfl⟩
+
+/-- **SASL is negotiated whenever it is offered and enabled** — the outcome is then the manager's (a SASL element with the chosen
+mechanism, or the mismatch), never legacy authentication, bind or a session. -/
+theorem client_negotiates_sasl_when_offered (c : ClientCfg) (f : Features)
+    (hs : c.useSasl = true) (hoff : f.mechanisms ≠ []) :
+    (∃ o, clientChoice c f = .sasl o) ∨ (∃ o, clientChoice c f = .sasl2 o) := by
+  have hne : f.mechanisms.isEmpty = false := by
+    cases hm : f.mechanisms with
+    | nil => exact absurd hm hoff
+    | cons _ _ => rfl
+  unfold clientChoice
+  cases h2 : f.sasl2 with
+  | none => left; simp [hne, hs]
+  | some m2 =>
+    cases hu : c.useSasl2 with
+    | true => right; exact ⟨_, rfl⟩
+    | false => left; simp [hne, hs]
+
+/-- The client disconnects in this step exactly when a negotiation ended in a mismatch. -/
+theorem client_disconnects_iff_mismatch (c : ClientCfg) (f : Features) :
+    (clientChoice c f).disconnects = true ↔
+      (∃ d, clientChoice c f = .sasl (.mismatch d)) ∨ (∃ d, clientChoice c f = .sasl2 (.mismatch d)) := by
+  cases h : clientChoice c f with
+  | sasl o => cases o <;> simp [ClientOutcome.disconnects]
+  | sasl2 o => cases o <;> simp [ClientOutcome.disconnects]
+  | legacyAuth => simp [ClientOutcome.disconnects]
+  | bind => simp [ClientOutcome.disconnects]
+  | session => simp [ClientOutcome.disconnects]
+
+/-- **What the real client does with `useSASLAuthentication = false`** (and SASL 2 not negotiated): the offered SASL mechanisms are
+ignored altogether — XEP-0078 authentication if the server advertises it and `useNonSASLAuthentication` is on, else a bind request
+if bind is advertised, else the session is opened. No mismatch is reported: the user switched SASL off. -/
+theorem client_sasl_disabled (c : ClientCfg) (f : Features) (hs : c.useSasl = false)
+    (hno2 : f.sasl2 = none ∨ c.useSasl2 = false) :
+    clientChoice c f =
+      if f.legacyAuth && c.useNonSasl then .legacyAuth else if f.bind then .bind else .session := by
+  unfold clientChoice
+  rcases hno2 with h2 | h2
+  · rw [h2]; simp [hs]
+  · rw [h2]; cases f.sasl2 <;> simp [hs]
+
+/-- The same happens when the server offers no SASL mechanism at all (no or empty `<mechanisms/>`): outside the property
+(nothing was offered to choose from), stated for precision. -/
+theorem client_no_sasl_offered (c : ClientCfg) (f : Features) (hoff : f.mechanisms = [])
+    (hno2 : f.sasl2 = none ∨ c.useSasl2 = false) :
+    clientChoice c f =
+      if f.legacyAuth && c.useNonSasl then .legacyAuth else if f.bind then .bind else .session := by
+  unfold clientChoice
+  rcases hno2 with h2 | h2
+  · rw [h2]; simp [hoff]
+  · rw [h2]; cases f.sasl2 <;> simp [hoff]
+
+/-- SASL 2 is governed by `useSasl2Authentication` alone: it is negotiated when offered and enabled even if
+`useSASLAuthentication` is off, and it takes precedence over SASL (no fall-back to the SASL list after a SASL 2 mismatch). -/
+theorem client_sasl2_precedence (c : ClientCfg) (f : Features) (m2 : List String)
+    (h2 : f.sasl2 = some m2) (hu : c.useSasl2 = true) :
+    clientChoice c f = .sasl2 (sasl2Authenticate c.cfg c.fastOn m2 f.fast) := by
+  unfold clientChoice; rw [h2, hu]
+
+example : clientChoice { useSasl := false } { mechanisms := ["SCRAM-SHA-1"], legacyAuth := true, bind := true } = .legacyAuth ∧
+    clientChoice { useSasl := false, useNonSasl := false } { mechanisms := ["SCRAM-SHA-1"], legacyAuth := true, bind := true } = .bind ∧
+    clientChoice { cfg := { creds := { password := .nonEmpty } } } { mechanisms := ["SCRAM-SHA-1"], sasl2 := some ["GSSAPI"] }
+      = .sasl2 (.mismatch []) := by decide
+
 end Qx.C05
